@@ -63,18 +63,27 @@ class Interner:
         return "\n".join(f"Definition {n} : string := {q(s)}." for s, n in self.tab.items())
 
 # ----------------------------------------------------------------------------- coqc shards
-def ensure_built(timeout=1500):
-    """make the Coq development (no-op when .vo files are current). Returns (ok, log)."""
-    mk = os.path.join(COQ, "Makefile")
-    if not os.path.exists(mk) or os.path.getmtime(mk) < os.path.getmtime(os.path.join(COQ, "_CoqProject")):
-        r = subprocess.run("coq_makefile -f _CoqProject -o Makefile $(find theories -name '*.v' | sort)", shell=True, cwd=COQ, capture_output=True, text=True)
-        if r.returncode != 0:
-            return False, r.stdout + r.stderr
-    try:
-        r = subprocess.run(["make", f"-j{NPROC}"], cwd=COQ, capture_output=True, text=True, timeout=timeout)
-    except subprocess.TimeoutExpired:
-        return False, "make timed out"
-    return r.returncode == 0, r.stdout[-4000:] + r.stderr[-4000:]
+def ensure_built(timeout=2400):
+    """make the Coq development (no-op when .vo files are current). Returns (ok, log).
+    Serialised with a file lock so that concurrently running checks do not race in make."""
+    import fcntl
+    os.makedirs(WORK, exist_ok=True)
+    with open(os.path.join(WORK, ".build.lock"), "w") as lk:
+        fcntl.flock(lk, fcntl.LOCK_EX)
+        mk = os.path.join(COQ, "Makefile")
+        vfiles = sorted(os.path.relpath(os.path.join(r, f), COQ) for r, _, fs in os.walk(THEORIES) for f in fs if f.endswith(".v"))
+        listed = os.path.join(COQ, ".vfiles")
+        if (not os.path.exists(mk) or not os.path.exists(listed) or open(listed).read().split() != vfiles
+                or os.path.getmtime(mk) < os.path.getmtime(os.path.join(COQ, "_CoqProject"))):
+            r = subprocess.run(["coq_makefile", "-f", "_CoqProject", "-o", "Makefile"] + vfiles, cwd=COQ, capture_output=True, text=True)
+            if r.returncode != 0:
+                return False, r.stdout + r.stderr
+            open(listed, "w").write("\n".join(vfiles))
+        try:
+            r = subprocess.run(["make", f"-j{NPROC}"], cwd=COQ, capture_output=True, text=True, timeout=timeout)
+        except subprocess.TimeoutExpired:
+            return False, "make timed out"
+        return r.returncode == 0, r.stdout[-4000:] + r.stderr[-4000:]
 
 def coqc(path, timeout=600):
     try:
